@@ -183,7 +183,7 @@ def run():
     cases = []
     uni, ust = common.tlc_eval_json("Dump_Universe", cfg="Dump_Universe_Q" if QUICK else "Dump_Universe_T")
     chk.add_tlc(ust)
-    pick = rng.sample(uni, 200 if QUICK else 3000)
+    pick = rng.sample(uni, min(len(uni), 200 if QUICK else 3000))
     for a in pick:
         for b in rng.sample(mutation_layers(a, rng), 8) if QUICK else mutation_layers(a, rng):
             cases.append(drive(b, rng, nuc_only=True))
